@@ -380,6 +380,18 @@ theorem handle_ids (cap data : Nat) (hd : 0 < data) (ops : List Op) (hwf : wfRun
   rw [he] at h0
   exact h0
 
+/-- **the cursors of the translated code stay inside the ring** — after any well-formed history the C fields satisfy
+`head ≤ mapped ≤ capacity` and `high ≤ capacity` (so `data + head`, `data + mapped`, `data + high` never leave the allocation). -/
+theorem cursors_in_bounds (cap data : Nat) (hd : 0 < data) (ops : List Op) (hwf : wfRun (Sys.init cap) ops = true) :
+    (crun (CSys.init cap data) ops).ch.head ≤ (crun (CSys.init cap data) ops).ch.mapped ∧
+    (crun (CSys.init cap data) ops).ch.mapped ≤ (crun (CSys.init cap data) ops).ch.capacity ∧
+    (crun (CSys.init cap data) ops).ch.high ≤ (crun (CSys.init cap data) ops).ch.capacity := by
+  have hs := refine_history cap data hd ops hwf
+  have hi : Inv (run (Sys.init cap) ops) (grun (Sys.init cap) {} ops) := (Inv.init cap).run ops hwf
+  have h1 := hi.hm; have h2 := hi.mc; have h3 := hi.hc
+  rw [← hs.ch] at h1 h2 h3
+  exact ⟨h1, h2, h3⟩
+
 /-! ## non-vacuity: a concrete history with a wrap, a lap change and partial consumption, run through the translated functions -/
 def demoOps : List Op :=
   [.join, .wmap 10, .wcommit, .rmap 0, .runmap 0 10, .join, .runmap 1 10, .wmap 10, .wcommit, .rmap 0, .runmap 0 3,
